@@ -111,6 +111,7 @@ func TestC09Fresh(t *testing.T) {
 	}
 	r := hx.Start(t, "C09")
 	defer r.Finish(t)
+	r.Rule("fresh_process_reference: a File (two in three: a list of literals drawn from ~60 values that are different inputs but compare equal or print alike — signed zeros of every float and complex type, zeros and ones of every integer type, 1 / 1.0 / \"1\", runes vs one-character strings vs bytes; else a general job) rendered in this process after 1..3 sibling Files of the same kind (and everything the test process rendered before) must equal the same File rendered alone in a re-executed fresh process")
 	hx.Rapid(r, t, hx.Check[freshCase]{Name: "fresh_process_reference", Fn: checkFresh}, r.N(150, 1000), func(rt *rapid.T) freshCase {
 		c := freshCase{}
 		lit := rapid.IntRange(0, 2).Draw(rt, "literals") > 0
